@@ -28,7 +28,7 @@ ASSUMPTIONS = ["forcing.module is always given (the property does not say what a
                "the release file has no header line (version 1 always passes the column names)"]
 TIERS = {"quick": dict(runs=220, budget_s=50, shrink=80),
          "thorough": dict(runs=15000, budget_s=900, shrink=150)}
-REQUIRED_PROBES = ["v1", "toml", "grid_omitted", "wildcard", "sections_omitted", "diffusion", "continuous", "leftover_frequency", "user_gridforce_module", "grid_in_first_file_only", "native_yaml_timestamps", "times_with_seconds", "grid_in_grid_file_only"]
+REQUIRED_PROBES = ["v1", "toml", "grid_omitted", "wildcard", "sections_omitted", "diffusion", "continuous", "leftover_frequency", "user_gridforce_module", "grid_in_first_file_only", "native_yaml_timestamps", "times_with_seconds", "grid_in_grid_file_only", "diffusion_written_as_integer"]
 
 PROFILE = gen.profile(
     nsteps=(2, 24), p_reversed=0.0, p_land=0.4, p_subgrid=0.35, N=(1, 4), p_vinfo=0.0, cfl=(0.05, 0.6),
@@ -55,6 +55,8 @@ def generate(seed: int, tier: str, idx: int) -> dict:
         sc["release"].pop("mult_column")
         sc["release"].pop("col_order", None)
     sc["plan"] = {"omit_ibm": s.chance(0.5), "alt_module": s.chance(0.4), "native_times": s.chance(0.5)}
+    if sc["tracker"].get("diffusion") and stream(seed, "c18.intdiff").chance(0.5):
+        sc["tracker"]["diffusion"] = stream(seed, "c18.intdiff.v").pick([1, 2, 5, 10])     # written as "1", not "1.0"
     if len(world.frame_partition(sc)) > 1 and s.chance(0.6):
         sc["frames"]["grid_in_first_only"] = True     # "the first forcing file" is then the only possible grid file
     elif s.chance(0.25):
@@ -319,6 +321,8 @@ def execute(sc) -> Result:
     res.probes["sections_omitted"] += 1
     if sc["tracker"].get("diffusion"):
         res.probes["diffusion"] += 1
+        if isinstance(sc["tracker"]["diffusion"], int):
+            res.probes["diffusion_written_as_integer"] += 1
     if sc["release"].get("continuous"):
         res.probes["continuous"] += 1
     if plan.get("leftover_freq_steps"):
